@@ -27,6 +27,21 @@ def main(argv):
     mod = importlib.import_module(f"mc.checks.{pid.lower()}")
     with open(inp) as f:
         data = json.load(f)
+    # configuration dimension shared by all checks: trace logging (it only adds log records) is switched on in every shard
+    # whose index is 1 mod 3, in both node implementations; a replay runs under the configuration of the shard that
+    # found the case
+    cfg = data if mode == "shard" else (data.get("cfg") or {})
+    trace = int(cfg.get("shard", cfg.get("k", 0)) or 0) % 3 == 1
+    from pyoak import config as _config
+
+    _config.TRACE_LOGGING = trace
+    if pid.upper() in ("C18", "C19", "C20"):
+        import warnings
+
+        with warnings.catch_warnings():
+            warnings.simplefilter("ignore")
+            import pyoak.legacy.node as _ln
+        _ln.TRACE_LOGGING = trace
     try:
         if mode == "shard":
             res = mod.run_shard(data)
